@@ -2,6 +2,11 @@
 import json, os, re, glob, subprocess
 ROOT = '/verif/seeded'
 HEAD = subprocess.run(['git', '-C', '/repo', 'rev-parse', '--short', 'HEAD'], capture_output=True, text=True).stdout.strip()
+
+
+def applies(d):
+    r = subprocess.run(['git', '-C', '/repo', 'apply', '--check', os.path.join(d, 'patch.diff')], capture_output=True)
+    return r.returncode == 0
 # how each initially-missed seed was handled
 NOTES = {
  'C03-m2': 'missed by the first version (every Interest was awaited at once); NdnPit/pitkit were extended with deferred await (Await action, buffered outcomes); caught since',
@@ -19,10 +24,34 @@ NOTES = {
  'C12-n2': 'missed at first (each schema compiled once); every schema is now compiled twice with another compile in between and the second model judged; caught since',
  'C18-n2': 'missed at first (when suppression starts was left open); OutdatedStartsSuppression added; caught since',
  'C19-n1': 'harness crashed at first (exit 2) on an Interest for an unpublished name; deep (versioned) names added and the trace now ends/rejects there; caught since',
- 'C19-n2': 'Nack reasons 50/100/150 rotated (was 150 only); caught',
+ 'C19-n2': 'Nack reasons rotated (was 150 only); caught. The patch no longer applies to /repo HEAD since fix 9b84c25 rewrote the same lines of segment_fetcher.retry(); result from the run against the earlier HEAD',
+ 'C03-m1': 'caught. The patch no longer applies to /repo HEAD since fix dbebc9b changed the same lines of name_tree.satisfy(); result from the run against the earlier HEAD',
+ 'C06-k2': 'not evaluated: the patch rewrites name_tree.InterestTreeNode.nack_interest and did not apply to /repo HEAD (changed by fixes 88265c7 / dbebc9b) when round 3 was evaluated',
+ 'C02-k1': 'an application-level digest gate (legacy _on_interest), outside C02 (codec-level ranges/checkers) by our reading; caught by C05 (check-C05.txt) once empty ApplicationParameters were part of the gate templates',
+ 'C06-k1': 'the receive path raises only for an Interest that is addressed to an attached handler (not junk): missed by C06, caught by C05/C04 machinery (check-C05.txt) after unusual trailing name components were added to incoming Interests',
+ 'C19-k1': 'pack_uint_bytes mis-sizes only the number 65535 (segment 65535 of a 65536-segment object): out of reach for the C19 driver (<= 12 segments); caught by C09, whose boundary numbers include 65535 (check-C09.txt)',
+ 'C19-k2': 'legacy Nack with reason 0 treated as not-a-Nack: caught after reason 0 joined the rotation (also by C10)',
+ 'C03-k2': 'missed at first (parameters passed as keyword arguments only); every second Interest now goes through one caller-owned InterestParam object that is overwritten for the next Interest; caught since',
+ 'C04-k1': 'missed at first (names in immutable objects only); representations wirebuf / mutbuf (scratch buffers overwritten after the call) added; caught since',
+ 'C10-k1': 'harness crashed at first (exit 2) in the codec round trip; made robust; caught',
+ 'C10-k2': 'missed at first (small replies only); every other reply is now a full-size segment; caught since',
+ 'C07-k2': 'missed at first (a cut TLV number was classed as overrun and fell under the LP known finding); cut-number class added; caught since',
+ 'C09-k2': 'missed at first; aliasing pass (mutate returned lists, convert again) added; caught since',
+ 'C12-k1': 'missed at first; key rules constrained by packet-only patterns added to the generator; caught since',
+ 'C12-k2': 'missed at first; long-lived Checker queried through reused, in-place mutated name lists; caught since',
+ 'C13-k1': 'missed at first; C13 compiles every schema twice; caught since',
+ 'C14-k1': 'missed at first; HMAC / unknown signature types as per-link deviation kinds; caught since',
+ 'C14-k2': 'missed at first; anchors handed over in a bytearray that is overwritten after construction; caught since',
+ 'C15-k2': 'missed at first; signers returned earlier are kept and re-probed after later steps; caught since',
+ 'C16-k1': 'missed at first; issuer ids in every URI spelling; caught since',
+ 'C16-k2': 'missed at first; start and end zones chosen independently (naive/aware mixes); caught since',
+ 'C17-k1': 'missed at first; prefixes whose command name crosses 253 bytes; caught since',
+ 'C17-k2': 'missed at first; Nack reason codes beyond the well-known four; caught since',
+ 'C18-k2': 'missed at first; node names with unusual component types; caught since',
+ 'C20-k1': 'missed at first; empty / comment-only files as content classes; caught since',
 }
 rows = []
-for d in sorted(glob.glob(ROOT + '/C*-[mn]*')):
+for d in sorted(glob.glob(ROOT + '/C*-[mnk]*')):
     sid = os.path.basename(d)
     prop = sid.split('-')[0]
     notes = open(os.path.join(d, 'notes.md')).read() if os.path.exists(os.path.join(d, 'notes.md')) else ''
@@ -45,7 +74,7 @@ for d in sorted(glob.glob(ROOT + '/C*-[mn]*')):
         'what_it_changes': what,
         'needs_to_manifest': need,
         'verified': {
-            'repo_head_applied_to': HEAD,
+            'applies_to_repo_head': HEAD if applies(d) else 'no longer applies to %s (a later fix: commit rewrote the same lines); last evaluated against the HEAD of that time' % HEAD,
             'full_suite_with_change': pt,
             'demo': 'demo_test.py fails with the change and passes without it (re-run here with PYTHONPATH=<worktree>/src)',
             'commands': ['dev/try_seed.sh %s %s' % (prop, sid.split('-')[1]),
